@@ -374,19 +374,42 @@ NEW_NODES = [
 ]
 
 
+def _type_by_name(tree, name):
+    for _, n in walk(tree):
+        if n["tag"] == "sectiontype" and (n["a"].get("name") or "").lower() == name.lower():
+            return n
+    return None
+
+
 def _siblings_tokens(tree, path, attr):
-    """Values of `attr` among the siblings (and, for type references, all type names)."""
+    """Values of `attr` among the siblings and - inside a derived section type - among the inherited items
+    (for `attribute` also the attribute names implied by their names); for type references all type names."""
     out = []
+
+    def add(v):
+        if v and v not in out:
+            out.append(v)
+
+    def collect(kids):
+        for k in kids:
+            add(k["a"].get(attr))
+            if attr == "attribute" and k["a"].get("name") and k["a"]["name"] not in ("*", "+"):
+                add(k["a"]["name"].lower().replace("-", "_"))
+            if attr == "name":
+                add(k["a"].get("attribute"))
     if path:
         parent = node_at(tree, path[:-1])
-        for k in parent["kids"]:
-            v = k["a"].get(attr)
-            if v and v not in out:
-                out.append(v)
+        collect(parent["kids"])
+        seen = 0
+        while parent is not None and parent["tag"] == "sectiontype" and parent["a"].get("extends") and seen < 4:
+            parent = _type_by_name(tree, parent["a"]["extends"])
+            seen += 1
+            if parent is not None:
+                collect(parent["kids"])
     if attr in ("type", "extends", "implements"):
         for _, n in walk(tree):
-            if n["tag"] in TYPE_TAGS and n["a"].get("name") and n["a"]["name"] not in out:
-                out.append(n["a"]["name"])
+            if n["tag"] in TYPE_TAGS:
+                add(n["a"].get("name"))
     return out
 
 
